@@ -105,9 +105,12 @@ pub struct TrainSet {
     pub user: Vec<(String, u16, u16, i16, Vec<String>)>,
     pub max_iter: u64,
     pub lambda: f64,
+    /// category (index, 0 = none) that the range 0x0000..0x0020 is assigned to in char.def
+    pub zero_cat: usize,
 }
 
-const TCHARS: &[(char, usize)] = &[('a', 1), ('b', 1), ('c', 1), ('d', 1), ('あ', 2), ('い', 2), ('う', 2), ('漢', 3), ('字', 3), ('1', 4), ('2', 4), ('-', 0), ('。', 0)];
+// ('Ａ' lies behind the last range of char.def: DEFAULT)
+const TCHARS: &[(char, usize)] = &[('a', 1), ('b', 1), ('c', 1), ('d', 1), ('あ', 2), ('い', 2), ('う', 2), ('漢', 3), ('字', 3), ('1', 4), ('2', 4), ('-', 0), ('。', 0), ('Ａ', 0)];
 const TCATS: &[&str] = &["DEFAULT", "ALPHA", "HIRAGANA", "KANJI", "NUMERIC"];
 
 fn feat_text(cells: &[String]) -> String {
@@ -127,6 +130,9 @@ impl TrainSet {
         let mut s = String::new();
         for (n, i, g, l) in &self.cats {
             s += &format!("{} {} {} {}\n", n, *i as u8, *g as u8, l);
+        }
+        if self.zero_cat != 0 && self.zero_cat < self.cats.len() {
+            s += &format!("0x0000..0x0020 {}\n", self.cats[self.zero_cat].0);
         }
         for (c, k) in TCHARS {
             if *k != 0 && *k < self.cats.len() {
@@ -187,8 +193,13 @@ fn gen_cells(rng: &mut Rng, tag: usize) -> Vec<String> {
     // now and then a long row (feature indices of two digits, as in UniDic)
     let n = if rng.chance(0.12) { 11 + rng.below(3) } else { 2 + rng.below(4) };
     let mut v = vec![rng.pick(&pos).to_string(), rng.pick(&sub).to_string()];
+    if rng.chance(0.02) {
+        // a long value without comma (expansions such as `B:%L[1],%L?[2]` then have their first comma far behind)
+        v[1] = "長".repeat(690 + rng.below(20));
+    }
     for k in 2..n {
-        v.push(match rng.below(6) {
+        v.push(match rng.below(7) {
+            6 => ["\u{3000}", " s", "s ", ""][rng.below(4)].to_string(),
             0 => "*".to_string(),
             1 => format!("q,{}", tag % 3),
             2 => format!("ヨミ{}", tag % 5),
@@ -298,6 +309,11 @@ pub fn gen_trainset(rng: &mut Rng) -> TrainSet {
             unk.push((c, f));
         }
     }
+    if rng.chance(0.1) {
+        // a seed unk.def listing one row twice
+        let again = unk[rng.below(unk.len())].clone();
+        unk.push(again);
+    }
     if rng.chance(0.3) {
         rng.shuffle(&mut unk);
     }
@@ -318,7 +334,12 @@ pub fn gen_trainset(rng: &mut Rng) -> TrainSet {
                 let len = 1 + rng.below(2);
                 let s: String = std::iter::repeat(c).take(len).collect();
                 let (_, f) = &unk[rng.below(unk.len())];
-                sent.push((s, f.clone()));
+                let mut f = f.clone();
+                if rng.chance(0.15) {
+                    // fewer cells than the unknown-word entry it otherwise agrees with
+                    f.truncate(1 + rng.below(f.len()));
+                }
+                sent.push((s, f));
             }
         }
         corpus.push(sent);
@@ -344,7 +365,8 @@ pub fn gen_trainset(rng: &mut Rng) -> TrainSet {
             }
         }
     }
-    TrainSet { cats, seed, unk, unigram_t, bigram_t, rules, corpus, user, max_iter: 3 + rng.below(20) as u64, lambda: *rng.pick(&[0.001, 0.01, 0.05, 0.5, 50.0]) }
+    let zero_cat = if rng.chance(0.2) { 1 + rng.below(ncat - 1) } else { 0 };
+    TrainSet { cats, seed, unk, unigram_t, bigram_t, rules, corpus, user, max_iter: 3 + rng.below(20) as u64, lambda: *rng.pick(&[0.001, 0.01, 0.05, 0.5, 50.0]), zero_cat }
 }
 
 /// True if no seed/unknown/corpus/user word yields any left-word (%L) bigram feature (every BIGRAM
@@ -398,6 +420,93 @@ pub fn train_blocking(ts: &TrainSet) -> Result<Model, String> {
     match r {
         Ok(r) => r,
         Err(p) => Err(format!("panic: {p}")),
+    }
+}
+
+/// C19, last clause: what the tokenizer prints can be fed to the trainer. A dictionary is compiled from the seed
+/// files of a training set (plus a user lexicon whose rows have fewer feature cells than the unknown-word entries
+/// they agree with), random sentences are tokenized, the MeCab-style lines are parsed as a corpus (tokens must be
+/// the tokenizer's) and the corpus is given to Trainer::train with the same seed files: no panic.
+pub fn c19_feed_trainer(ctx: &mut Ctx, rng: &mut Rng) {
+    let ts = gen_trainset(rng);
+    let chars: Vec<char> = TCHARS.iter().map(|x| x.0).collect();
+    let mut user = String::new();
+    for _ in 0..rng.below(4) {
+        let s: String = (0..1 + rng.below(3)).map(|_| chars[rng.below(chars.len())]).collect();
+        let f = if rng.chance(0.6) { ts.unk[rng.below(ts.unk.len())].1.clone() } else { ts.seed[rng.below(ts.seed.len())].1.clone() };
+        let keep = 1 + rng.below(f.len());
+        user += &format!("{},0,0,0,{}\n", csv_cell(&s, false), feat_text(&f[..keep]));
+    }
+    let d = match build_from_texts(ts.seed_csv().as_bytes(), ts.char_def().as_bytes(), ts.unk_def().as_bytes(), &ConnTexts::Matrix(b"1 1\n0 0 0\n".to_vec())) {
+        BuildOutcome::Ok(d) => d,
+        _ => {
+            ctx.bucket("feed_trainer_dictionary_not_built");
+            return;
+        }
+    };
+    let d = if user.is_empty() {
+        d
+    } else {
+        let u = user.clone();
+        match guarded(move || d.reset_user_lexicon_from_reader(Some(u.as_bytes())).map_err(|e| e.to_string())) {
+            Ok(Ok(d)) => d,
+            _ => {
+                ctx.bucket("feed_trainer_dictionary_not_built");
+                return;
+            }
+        }
+    };
+    let tok = vibrato::Tokenizer::new(d);
+    let mut w = tok.new_worker();
+    let mut text = String::new();
+    let mut want: Vec<Vec<(String, String)>> = vec![];
+    for _ in 0..1 + rng.below(6) {
+        let s: String = (0..1 + rng.below(8)).map(|_| chars[rng.below(chars.len())]).collect();
+        let toks = match tokenize(&mut w, &s) {
+            Ok(t) => t,
+            Err(_) => return, // (uncovered category etc.: C01's business)
+        };
+        for t in &toks {
+            text += &format!("{}\t{}\n", t.surface, t.feat);
+        }
+        text += "EOS\n";
+        want.push(toks.iter().map(|t| (t.surface.clone(), t.feat.clone())).collect());
+    }
+    let cj = |d: String| json!({"training_files": ts.texts(), "user.csv": user, "tokenizer_output": text, "detail": d});
+    ctx.eval();
+    match guarded(|| Corpus::from_reader(text.as_bytes()).map_err(|e| e.to_string())) {
+        Ok(Ok(c)) => {
+            let got: Vec<Vec<(String, String)>> = c.iter().map(|e| e.tokens().iter().map(|w| (w.surface().to_string(), w.feature().to_string())).collect()).collect();
+            if got != want {
+                ctx.violation("tokenizer_output_parses_to_different_tokens", "C19:tokenizer_output_parses_to_different_tokens", format!("{:?} vs {:?}", got, want), cj(String::new()));
+                return;
+            }
+        }
+        Ok(Err(e)) | Err(e) => {
+            ctx.violation("tokenizer_output_rejected_as_corpus", "C19:tokenizer_output_rejected_as_corpus", e, cj(String::new()));
+            return;
+        }
+    }
+    let (tx, rx) = std::sync::mpsc::channel();
+    let (ts2, text2) = (ts.clone(), text.clone());
+    std::thread::spawn(move || {
+        crate::real::install_thread_panic_state();
+        let r = guarded(|| -> Result<(), String> {
+            let config = TrainerConfig::from_readers(ts2.seed_csv().as_bytes(), ts2.char_def().as_bytes(), ts2.unk_def().as_bytes(), ts2.feature_def().as_bytes(), ts2.rewrite_def().as_bytes()).map_err(|e| format!("config: {e}"))?;
+            let corpus = Corpus::from_reader(text2.as_bytes()).map_err(|e| format!("corpus: {e}"))?;
+            let trainer = Trainer::new(config).map_err(|e| format!("trainer: {e}"))?.regularization_cost(0.05).max_iter(2).num_threads(1);
+            trainer.train(corpus).map(|_| ()).map_err(|e| format!("train: {e}"))
+        });
+        let _ = tx.send(r);
+    });
+    match rx.recv_timeout(std::time::Duration::from_secs(60)) {
+        Ok(Ok(Ok(()))) => ctx.bucket("tokenizer_output_accepted_by_trainer"),
+        Ok(Ok(Err(e))) => {
+            ctx.bucket("trainer_returned_err_on_tokenizer_output");
+            ctx.note(format!("trainer: {e}"));
+        }
+        Ok(Err(p)) => ctx.violation("trainer_panicked_on_tokenizer_output", &format!("C19:train:{}", panic_class(&p)), p, cj(String::new())),
+        Err(_) => ctx.bucket("training_timeout_skipped"),
     }
 }
 
@@ -956,6 +1065,19 @@ pub fn c15_case(ctx: &mut Ctx, rng: &mut Rng) {
         Ok(f) => f,
         Err(e) => return fail(ctx, "generate_in_memory", e),
     };
+    if with_user {
+        // generating again (now with the user lexicon registered) gives the same files, user.csv included
+        match generate(&mut m) {
+            Ok(g) => {
+                ctx.eval();
+                if !cmp(ctx, "generate_twice_with_user_lexicon", &fa, &g, true) {
+                    return;
+                }
+                ctx.bucket("generated_twice_with_user_lexicon");
+            }
+            Err(e) => return fail(ctx, "generate_twice_with_user_lexicon", e),
+        }
+    }
     let fb = match generate(&mut m2) {
         Ok(f) => f,
         Err(e) => return fail(ctx, "generate_reloaded", e),
@@ -1166,6 +1288,7 @@ pub fn c14_witness_no_bigram_feature(ctx: &mut Ctx) {
         user: vec![(s("c"), 0, 0, 0, vec![s("動詞"), s("x")])],
         max_iter: 5,
         lambda: 0.01,
+        zero_cat: 0,
     };
     ctx.eval();
     if let Ok(mut m) = train(&ts) {
